@@ -156,11 +156,15 @@ func Load(repoDir, harnessDir string, patterns []string) (*Program, error) {
 			}
 			fileStubs := map[string]string{}
 			native := false
+			nativeEnv := false // stubs describe the environment the native run finds (absent files): replay natively too
 			for _, cg := range f.Comments {
 				for _, c := range cg.List {
 					txt := strings.TrimSpace(strings.TrimPrefix(c.Text, "//"))
 					if strings.HasPrefix(txt, "verif:native") {
 						native = true
+					}
+					if strings.HasPrefix(txt, "verif:native-env") {
+						nativeEnv = true
 					}
 				}
 			}
@@ -189,7 +193,7 @@ func Load(repoDir, harnessDir string, patterns []string) (*Program, error) {
 					continue
 				}
 				h := &Harness{Name: fd.Name.Name, Fn: fn, Pkg: sp, File: fname, Stubs: fileStubs,
-					Native: native && len(fileStubs) == 0, Params: len(fn.Params), stubFns: map[string]*ssa.Function{}}
+					Native: native && (len(fileStubs) == 0 || nativeEnv), Params: len(fn.Params), stubFns: map[string]*ssa.Function{}}
 				if fd.Doc != nil {
 					h.Doc = fd.Doc.Text()
 				}
